@@ -7,7 +7,10 @@ namespace awsim {
   static std::string err_cls_;
   static std::string err_msg_;
 
+  long alloc_pause_depth = 0;
+
   long put(int kind, const std::shared_ptr<void>& p) {
+    AllocPause pause;
     Obj o;
     o.kind = kind;
     o.p = p;
@@ -49,6 +52,8 @@ namespace awsim {
     err_cls_ = cls;
     err_msg_ = msg;
   }
+  // (the callers build `msg` from e.what() inside a catch handler: the handlers call alloc_suspend() first, see the
+  // AWS_CATCH macro - a simulated allocation failure belongs to the library call, not to the harness reporting it)
 
   void clear_error() {
     err_cls_.clear();
@@ -121,3 +126,64 @@ extern "C" {
   // allocator seam: glibc fills fresh blocks with ~b and freed blocks with b
   int aws_perturb(int b) { return mallopt(M_PERTURB, b); }
 }
+
+// ------------------------------------------------------------------------------------------------ allocation seam
+// Every C++ allocation of the node (awkward_malloc is `new uint8_t[n]`, and so are make_shared, std::vector, ...)
+// goes through these replacements. Armed with a countdown k, the k-th allocation from now throws std::bad_alloc -
+// once; then the seam disarms itself. (On the sanitizer node the sanitizer's own operator new is found first and the
+// fault never fires: aws_alloc_supported() says so.)
+#include <cstdlib>
+#include <new>
+
+namespace {
+  long alloc_countdown_ = -1;     // < 0: disarmed
+  long alloc_fired_ = 0;
+  long alloc_seen_ = 0;
+  bool alloc_replaced_ = false;
+
+  inline void* sim_alloc(std::size_t n) {
+    alloc_replaced_ = true;
+    if (alloc_countdown_ >= 0  &&  awsim::alloc_pause_depth == 0) {
+      alloc_seen_++;
+      if (alloc_countdown_ == 0) {
+        alloc_countdown_ = -1;
+        alloc_fired_++;
+        throw std::bad_alloc();
+      }
+      alloc_countdown_--;
+    }
+    void* p = std::malloc(n ? n : 1);
+    if (p == nullptr) throw std::bad_alloc();
+    return p;
+  }
+}
+
+void* operator new(std::size_t n) { return sim_alloc(n); }
+void* operator new[](std::size_t n) { return sim_alloc(n); }
+void operator delete(void* p) noexcept { std::free(p); }
+void operator delete[](void* p) noexcept { std::free(p); }
+void operator delete(void* p, std::size_t) noexcept { std::free(p); }
+void operator delete[](void* p, std::size_t) noexcept { std::free(p); }
+
+namespace awsim {
+  void alloc_suspend() { alloc_countdown_ = -1; }
+}
+
+extern "C" {
+  // 1 when the node's allocations really go through the seam (decided by one probe allocation)
+  int aws_alloc_supported() {
+    alloc_replaced_ = false;
+    delete[] new char[8];
+    return alloc_replaced_ ? 1 : 0;
+  }
+  void aws_alloc_arm(long countdown) { alloc_countdown_ = countdown; alloc_seen_ = 0; }
+  // disarms; returns 1 when the failure was delivered since the last arm, and the number of allocations seen
+  int aws_alloc_disarm(long* seen) {
+    int fired = alloc_fired_ > 0 ? 1 : 0;
+    if (seen != nullptr) *seen = alloc_seen_;
+    alloc_countdown_ = -1;
+    alloc_fired_ = 0;
+    return fired;
+  }
+}
+
